@@ -114,7 +114,7 @@ def cfg_from_dims(kind, d, answers):
         'required': [] if d['req'] == 'none' else [d['req']],
         'forbidden': FORB[d['forb']],
         'metric': d['metric'],
-        'entryPartial': kind == 'matrix' and d['ans'] == 'partial',
+        'entryPartial': kind == 'matrix' and d['ans'] != 'plain',
         'dummy': 'n' if kind == 'sum' else '',
         'val': dict(VALTAB),
         'answers': [{'boxes': [ids_box(b) for b in a['boxes']], 'g': a['g']} for a in answers],
@@ -176,6 +176,8 @@ def math_kwargs(cfg):
         kw['metric_suffixes'] = True
     if cfg['instr']:
         kw['instructor_vars'] = sorted(cfg['instr'])
+    if cfg['kind'] != 'sum':
+        kw['tolerance'] = '0.01%'          # NumericalGrader's default is 5%; the model's guard band is 0.1%
     return kw
 
 
@@ -294,6 +296,7 @@ def finding_class(why, allowed, obs, must):
 def describe(cfg):
     kw = math_kwargs(cfg)
     kw.pop('sample_from', None)
+    kw.pop('tolerance', None)
     kw['user_functions'] = sorted(kw.get('user_functions', {}))
     kw['answers'] = [[box_text(b) for b in a['boxes']] + [a['g']] for a in cfg['answers']]
     if cfg['entryPartial']:
@@ -406,11 +409,11 @@ class Gen(object):
             return ('call', f, args)
         if p < 0.9:
             q = r.random()
-            if q < 0.35 and self.scope_names:
+            if q < 0.5 and self.scope_names:
                 return ('var', r.choice(self.scope_names))                  # legitimate: must not be refused
-            if q < 0.55:
+            if q < 0.7:
                 return ('var', r.choice(['pi', 'c', 'a_{1}', 'a_{12}', 'a_{-3}', 'a_{0}', 'b_{2}']))
-            if q < 0.75:
+            if q < 0.85:
                 return ('var', r.choice(list(self.author_only) + ['sibling_1']))
             return ('var', r.choice(T_BAD_VARS))
         return ('suf', '0', 0, 1, r.choice(T_SUFS)) if r.random() < 0.7 else ('suf', '2', 2, 1, r.choice(T_SUFS))
@@ -617,7 +620,7 @@ class Gen(object):
                 base[j] = ('bin', '+', base[j], self.num(1, 3))
         elif p < 0.5:
             base = [self.commute(b) for b in base]
-        k = r.choice([0, 1, 1, 1, 2, 2, 3])
+        k = r.choice([0, 0, 1, 1, 1, 2, 3])
         for _ in range(k):
             j = r.randrange(len(base)) if r.random() < 0.25 else len(base) - 1
             base[j] = self.insert(base[j])
@@ -725,9 +728,13 @@ def run(ctx):
                         % '; '.join(problems))
     reached = set()
     drift = {}
-    for part in KINDS:
-        d = os.path.join(ctx.scratch, 'cases_' + part)
-        ctx.tlc('expr/MC_Restrictions.tla', 'expr/MC_Restrictions_%s_%s.cfg' % (part, ctx.tier), dump=d, timeout=5000)
+    # thorough: the rich template set around the baseline for every kind, plus all pairs of option changes (with the
+    # quick template set) for the two implementations of the scrubbing / validation code (FormulaGrader, SumGrader)
+    runs = [(part, 'quick') for part in KINDS] if ctx.quick else \
+        [(part, 'thorough') for part in KINDS] + [('formula', 'pairs'), ('sum', 'pairs')]
+    for part, tier in runs:
+        d = os.path.join(ctx.scratch, 'cases_%s_%s' % (part, tier))
+        ctx.tlc('expr/MC_Restrictions.tla', 'expr/MC_Restrictions_%s_%s.cfg' % (part, tier), dump=d, timeout=5000)
         res = dump.parallel(d + '.dump', 'engine.adapters.c09', 'replay_states')
         os.remove(d + '.dump')
         for r in res:
@@ -744,10 +751,10 @@ def run(ctx):
                 if b is not None:
                     _report(ctx, b)
     # code -> spec
-    n = 2500 if ctx.quick else 40000
+    n = 2500 if ctx.quick else 20000
     per = 50
     items = [(ctx.rng.randrange(2 ** 31), per, i * per) for i in range(n // per)]
-    recs = [r for chunk in dump.pmap('engine.adapters.c09', 'trace_chunk', [[it] for it in items]) for r in chunk]
+    recs = [r for chunk in dump.pmap('engine.adapters.c09', 'trace_chunk', items) for r in chunk]
     unbuildable = [r for r in recs if r['obs'].startswith('unbuildable')]
     recs = [r for r in recs if not r['obs'].startswith('unbuildable')]
     if len(unbuildable) > len(recs) // 20:
@@ -782,7 +789,7 @@ def run(ctx):
         ctx.note_drift('%s (%d cases)' % (k, v))
     ctx.extra['reached'] = sorted('%s/%s' % k for k in reached)
     ctx.extra['trace_observations'] = obs_hist
-    ctx.extra['bounds'] = {'tier': ctx.tier, 'grader_kinds': KINDS, 'options_changed_from_baseline': 1 if ctx.quick else 2,
+    ctx.extra['bounds'] = {'tier': ctx.tier, 'grader_kinds': KINDS, 'options_changed_from_baseline': '1' if ctx.quick else '1 with the rich template set, 2 with the quick template set',
                            'random_records': len(recs), 'neutral_terms_per_random_formula': '0-3',
                            'max_tokens_random': 110}
     ctx.assumptions += [
